@@ -86,8 +86,102 @@ def replay_dunder(ob):
     return {'reproduced': False, 'detail': 'dunder agrees with NumPy arithmetic and leaves its operands alone on %d spaces' % len(spaces)}
 
 
+def replay_pspace(ob):
+    """product spaces built through the real constructors (power, mixed, nested, complex, discretized factors): kernels, zero / one and the
+    dunders (element, broadcast factor element, scalar; all 12 forms) against per-part NumPy arithmetic; operands untouched"""
+    import operator
+    odl = _import_odl()
+    import numpy as np
+    rng = np.random.default_rng(5)
+    r2, r3, c2 = odl.rn(2), odl.rn(3), odl.cn(2)
+    d3 = odl.uniform_discr(0, 1, 3)
+    spaces = [r3 ** 2, r3 ** 3, odl.ProductSpace(r2, r3), (r2 ** 2) ** 2, odl.ProductSpace(r2 ** 2, r3), c2 ** 2, d3 ** 2, odl.ProductSpace(d3, r2)]
+
+    def rand(sp):
+        if isinstance(sp, odl.ProductSpace):
+            return sp.element([rand(s) for s in sp.spaces])
+        a = rng.uniform(0.5, 2.0, sp.shape)
+        if sp.is_complex:
+            a = a + 1j * rng.uniform(0.5, 2.0, sp.shape)
+        return sp.element(a)
+
+    def flat(x):
+        if isinstance(x.space, odl.ProductSpace):
+            return [v for p in x.parts for v in flat(p)]
+        return [np.asarray(x).copy()]
+
+    def same(xs, ys):
+        return len(xs) == len(ys) and all(np.allclose(a, b, rtol=1e-10, atol=1e-12) for a, b in zip(xs, ys))
+    ops = {'add': operator.add, 'sub': operator.sub, 'mul': operator.mul, 'truediv': operator.truediv}
+    for sp in spaces:
+        # kernels under the five identity patterns
+        for pat in [('x', 'y', 'o'), ('x', 'x', 'o'), ('o', 'y', 'o'), ('x', 'o', 'o'), ('o', 'o', 'o')]:
+            for meth in ('_lincomb', '_multiply', '_divide'):
+                els = {l: rand(sp) for l in set(pat)}
+                old = {l: flat(e) for l, e in els.items()}
+                x1, x2, out = (els[l] for l in pat)
+                a, b = 1.5, -0.75
+                if meth == '_lincomb':
+                    sp._lincomb(a, x1, b, x2, out)
+                    want = [a * u + b * v for u, v in zip(old[pat[0]], old[pat[1]])]
+                elif meth == '_multiply':
+                    sp._multiply(x1, x2, out)
+                    want = [u * v for u, v in zip(old[pat[0]], old[pat[1]])]
+                else:
+                    sp._divide(x1, x2, out)
+                    want = [u / v for u, v in zip(old[pat[0]], old[pat[1]])]
+                if not same(flat(out), want):
+                    return {'reproduced': True, 'detail': '%r.%s with operands %s: %r, expected %r' % (sp, meth, pat, flat(out), want)}
+                for l in els:
+                    if els[l] is not out and not same(flat(els[l]), old[l]):
+                        return {'reproduced': True, 'detail': '%r.%s with operands %s modified operand %s' % (sp, meth, pat, l)}
+        for meth, val in (('zero', 0.0), ('one', 1.0)):
+            z = getattr(sp, meth)()
+            if z not in sp or not all(np.all(a == val) for a in flat(z)):
+                return {'reproduced': True, 'detail': '%r.%s() == %r' % (sp, meth, z)}
+        # dunders
+        for base, op in ops.items():
+            for form in ('', 'r', 'i'):
+                dunder = '__%s%s__' % (form, base)
+                others = [('pelem', lambda x: rand(sp)), ('self', lambda x: x), ('scalar', lambda x: 1.75)]
+                if sp.is_power_space:
+                    others.append(('leaf', lambda x: rand(sp[0])))
+                for oname, mk in others:
+                    x = rand(sp)
+                    o = mk(x)
+                    xo = flat(x)
+                    if oname == 'scalar':
+                        oo = [o] * len(xo)
+                    elif oname == 'leaf':
+                        oo = flat(o) * len(sp)
+                    else:
+                        oo = flat(o)
+                    keep = None if oname in ('scalar', 'self') else flat(o)
+                    try:
+                        ret = getattr(x, dunder)(o)
+                    except Exception as e:
+                        return {'reproduced': True, 'detail': '%r: x.%s(%s) raised %s: %s' % (sp, dunder, oname, type(e).__name__, e)}
+                    if ret is NotImplemented:
+                        return {'reproduced': True, 'detail': '%r: x.%s(%s) is NotImplemented' % (sp, dunder, oname)}
+                    want = [op(v, u) if form == 'r' else op(u, v) for u, v in zip(xo, oo)]
+                    if ret not in sp or not same(flat(ret), want):
+                        return {'reproduced': True, 'detail': '%r: x.%s(%s) == %r, expected parts %r' % (sp, dunder, oname, ret, want)}
+                    if form == 'i' and not same(flat(x), want):
+                        return {'reproduced': True, 'detail': '%r: x.%s(%s) did not update x in place' % (sp, dunder, oname)}
+                    if form != 'i' and oname != 'self' and not same(flat(x), xo):
+                        return {'reproduced': True, 'detail': '%r: x.%s(%s) modified x' % (sp, dunder, oname)}
+                    if keep is not None and not same(flat(o), keep):
+                        return {'reproduced': True, 'detail': '%r: x.%s(%s) modified the other operand' % (sp, dunder, oname)}
+    return {'reproduced': False, 'detail': 'product-space kernels, zero / one and all dunders agree with per-part NumPy arithmetic on %d product spaces' % len(spaces)}
+
+
 def replay(ob):
     rp = ob.get('replay') or {}
+    if ob.get('unit', '').startswith('pspace/'):
+        try:
+            return replay_pspace(ob)
+        except Exception as e:
+            return {'reproduced': False, 'detail': 'replay harness error: %r' % (e,)}
     if ob.get('unit', '').startswith('elem/__') and (ob.get('info') or {}).get('dunder'):
         try:
             return replay_dunder(ob)
